@@ -3,6 +3,7 @@ package main
 // SMT script assembly and solver racing.
 
 import (
+	"sort"
 	"os"
 	"sync/atomic"
 	"bytes"
@@ -62,6 +63,18 @@ func (P *Prog) preamble(reveal func(string) bool, text string) string {
 	var b strings.Builder
 	b.WriteString(basePreamble)
 	b.WriteString(P.ss.declareDatatypes())
+	P.mu.Lock()
+	var dn []string
+	for n := range P.derefDefs {
+		if strings.Contains(text, "("+n+" ") {
+			dn = append(dn, n)
+		}
+	}
+	sort.Strings(dn)
+	for _, n := range dn {
+		b.WriteString(P.derefDefs[n])
+	}
+	P.mu.Unlock()
 	b.WriteString(P.recDefs(reveal, text))
 	return b.String()
 }
